@@ -66,6 +66,24 @@ def build(tier, work, builder):
         jobs.append(F.Job(f"c14_swap_{op}", f"h_c14_swap_{op}", [tcobj, hobj], timeout=300, unwind=3, object_bits=12, functions=fns,
                           bound_note="record width <= 2 in areEquivalent's field loop; sub-structure pool of 4 abstract types",
                           note="both operand orders on the same pair of arbitrary flat types"))
+    # ---- part B: isSameScalarType on real type nodes ------------------------------------------
+    from checks import type_common as TY
+    tc = TY.type_class(); write(work, "type_class.inc", tc.text); slices.append(tc)
+    st = TY.type_data_structs(); write(work, "type_structs.inc", "\n".join(s.text for s in st) + "\n"); slices += st
+    ms = TY.type_members(l12=("type_t::is", "type_t::is_mutable", "type_t::is_constant", "type_t::get_sub()", "type_t::get_sub(i)"))
+    write(work, "type_members.inc", "\n".join(s.text for s in ms) + "\n"); slices += ms
+    src = X.Source(T.TC)
+    ss = X.function(src, "isSameScalarType", r"^static bool isSameScalarType\(type_t t1, type_t t2\)")
+    l12(ss, "isSameScalarType", 3)
+    ss.sub("L19:get_range().first.equal", r"(\w+)\.get_range\(\)\.first\.equal\((\w+)\.get_range\(\)\.first\)", r"verif_range_equal(\1, \2, true)", required=True)
+    ss.sub("L19:get_range().second.equal", r"(\w+)\.get_range\(\)\.second\.equal\((\w+)\.get_range\(\)\.second\)", r"verif_range_equal(\1, \2, false)", required=True)
+    write(work, "same_scalar.inc", ss.text + "\n")
+    slices.append(ss)
+    tyobj = builder.cc(os.path.join(CDIR, "ty14.cpp"), includes=[work, os.path.join(X.REPO, "include")], cpp=True)
+    hty = builder.cc(os.path.join(CDIR, "h_ty14.c"), includes=[work])
+    jobs.append(F.Job("c14_same_scalar", "h_c14_same_scalar", [tyobj, hty], timeout=300, unwind=8,
+                      functions=["isSameScalarType (typechecker.cpp, one level; recursion by symmetric contract)", "type_t::get_kind / operator[] / get_label / get_range (real)"],
+                      bound_note="one level of nesting per side (induction step)"))
     jobs.append(F.Job("c14_kf1_swap_INLINE_IF", "h_c14_swap_INLINE_IF", [tcobj, hobj_kf], timeout=600, unwind=3, object_bits=12,
                       functions=["TypeChecker::getInlineIfCommonType"], known={r"c14\.swap\.result-kind-is-symmetric": "C14-KF1"},
                       note="same harness without the exclusion of the known-finding class"))
@@ -84,7 +102,22 @@ OPTXT = {"PLUS": "+", "MULT": "*", "MIN": "<?", "MAX": ">?", "EQ": "==", "NEQ": 
          "BIT_AND": "&", "BIT_OR": "|", "BIT_XOR": "^"}
 
 
+REFMODEL = """typedef scalar[3] sc_t; sc_t v; const sc_t cv;
+void f(sc_t& p) { }
+void h(const sc_t& p) { }
+process P() { state s0, s1; init s0; trans s0 -> s1 { assign %s; }; }
+system P;
+"""
+
+
 def replay(rec):
+    if rec["job"] == "c14_same_scalar":
+        out = {}
+        for upd in ("f(v)", "h(v)", "h(cv)"):
+            out[upd] = native.parse_model(REFMODEL % upd).get("errors")
+        bad = {u: e for u, e in out.items() if e}
+        return {"confirmed": bool(bad) or None, "detail": {"calls": out, "why": "an argument whose scalar type is name-equivalent to the reference parameter's type is rejected (the wrapper sits on the parameter side)"},
+                "real_code": "libUTAP built from /repo's working tree"}
     m = re.match(r"c14_(?:kf1_)?swap_(\w+)$", rec["job"])
     if not m:
         return {"confirmed": None, "detail": "no public-API input for this obligation"}
